@@ -13,7 +13,7 @@ from concurrent.futures import ThreadPoolExecutor
 ROOT = os.path.dirname(os.path.dirname(os.path.abspath(__file__)))
 COQ = os.path.join(ROOT, "coq")
 CACHE = os.path.join(ROOT, ".cache")
-REPO = "/repo"
+REPO = os.environ.get("VERIF_REPO", "/repo")   # VERIF_REPO: seeded-change trials against a scratch worktree (tools/lane.sh)
 HARNESS = os.path.join(ROOT, "harness")
 
 ENV_OFFLINE = dict(os.environ, CARGO_NET_OFFLINE="true", CARGO_TARGET_DIR=os.path.join(CACHE, "target"))
@@ -313,12 +313,15 @@ class Env:
         self.wd = os.path.join(CACHE, "run", prop_id)
         self.known = load_known()
         self._tie_round = 0
+        self.r_log = []            # every ristretto (ctx "R") harness case with its output, tied by tie_ristretto()
 
     quick = property(lambda self: self.tier == "quick")
 
     def harness(self, cases, **kw):
         outs = run_harness(cases, **kw)
         for c, o in zip(cases, outs):
+            if c["ctx"] == "R" and not kw.get("features"):
+                self.r_log.append((c, o))
             self.evaluations += 1
             tag = c.get("tag", c["op"])
             self.hist[tag] = self.hist.get(tag, 0) + 1
@@ -383,6 +386,23 @@ class Env:
 
     def note(self, s):
         self.notes.append(s)
+
+
+def tie_ristretto(env):
+    """Compare every logged ristretto case with the Gallina ristretto model (budgeted, op-balanced)."""
+    from props import rist
+    if not env.r_log:
+        return
+    budget = float(os.environ.get("VERIF_R_BUDGET", "300" if env.quick else "4000"))
+    items, skipped, spent = rist.select(env.r_log, budget)
+    ops = {}
+    for it in items:
+        ops[it[2]] = ops.get(it[2], 0) + 1
+    env.note("ristretto model correspondence: %d of %d logged R cases tied (budget %.0f scalar-mult units, spent %.0f, %d over budget); ops: %s"
+             % (len(items), len(env.r_log), budget, spent, skipped, json.dumps(ops, sort_keys=True)))
+    env.hist["ristretto-model-tie"] = len(items)
+    mism = env.tie(items, "%s-ristretto" % env.prop)
+    env.tie_violation("%s-ristretto (Model/Ristretto.v, Model/RBackend.v vs curve25519-dalek through strand)" % env.prop, mism)
 
 
 def _short(o, n=400):
